@@ -57,6 +57,106 @@ theorem mismatch_prefix (start : Nat × Nat) (hs hu hu' : List Call) (hp : CallP
   · exact Or.inr (Or.inl hm)
   · exact Or.inr (Or.inr (Or.inl hm))
 
+/-- the second half of the crash theorems: the last file (as found, or repaired) reads, from the chain's rolling CRC,
+    as the CRC record, the synced records and a prefix `p` of the unsynced items -/
+theorem crash_finish (start : Nat × Nat) (md : Option Bytes) (hs hu : List Call) (hfu : ∀ c ∈ hu, c.Fits)
+    (hok : SaveOk (hs ++ hu)) (hnm : ¬ Mismatch start (hs ++ hu)) (gs : GGhost)
+    (hsem : applyItems start {} gs.all = specCalls start { metadata := md } (.snap ⟨0, 0, none⟩ :: hs))
+    (hclosedok : ∀ s ∈ gnoTail gs.closed, (∀ it ∈ s.1, GItemOk it) ∧ EndOfWritten s.2)
+    (f : Bytes) (n : Nat) (write : Bool)
+    (hn1 : readFuel (gchainFiles 0 (gnoTail gs.closed) ++ [f]) = closedFuel (gnoTail gs.closed) + (n + 1))
+    (p rest : List GItem) (hU : callsItems hu = p ++ rest)
+    (hrec : (recLoop (n + 1) (decAt f 0 gs.crc0)).1 = crcRec gs.crc0 :: gRecords gs.crc0 (gs.cur ++ p))
+    (hfin : (recLoop (n + 1) (decAt f 0 gs.crc0)).2.1 = .decEof ∨
+      (write = false ∧ (recLoop (n + 1) (decAt f 0 gs.crc0)).2.1 = .decErr .ueof)) :
+    ∃ hu', CallPrefix hu' hu ∧ SaveOk (hs ++ hu') ∧ ¬ Mismatch start (hs ++ hu') ∧
+      ∃ R, placeCalls start.1 [] (hs ++ hu') = some R ∧
+        (readAll write start (gchainFiles 0 (gnoTail gs.closed) ++ [f])).metadata = md ∧
+        (readAll write start (gchainFiles 0 (gnoTail gs.closed) ++ [f])).state = refState (hs ++ hu') ∧
+        (readAll write start (gchainFiles 0 (gnoTail gs.closed) ++ [f])).ents = R ∧
+        (readAll write start (gchainFiles 0 (gnoTail gs.closed) ++ [f])).err =
+          (if start ∈ savedSnaps (hs ++ hu') ∨ write = true then none else some .snapNotFound) ∧
+        R.take ((refLog (hs ++ hu')).length - start.1) = (refLog (hs ++ hu')).filter (fun e => e.index > start.1) ∧
+        (NoStale start.1 (hs ++ hu') → R = (refLog (hs ++ hu')).filter (fun e => e.index > start.1)) := by
+  have hchain := recLoop_closed_then f (gnoTail gs.closed) hclosedok n
+  have hcc : gchainCrc 0 (gnoTail gs.closed) = gs.crc0 := rfl
+  rw [hcc] at hchain
+  -- the surviving items are the items of a history cut short at a record boundary
+  obtain ⟨hu', hpre, hpitems⟩ := callsItems_prefix hu p rest hU
+  have hfu' := fits_prefix hu hu' hpre hfu
+  have hok' : SaveOk (hs ++ hu') := histOk_append_prefix hs [] hu hu' hpre hok
+  have hnm' := mismatch_prefix start hs hu hu' hpre hnm
+  obtain ⟨R, hR, hRpre, hRex⟩ := placeCalls_refLog start.1 (hs ++ hu') hok'
+  refine ⟨hu', hpre, hok', hnm', R, hR, ?_⟩
+  -- the dispatch over the records read
+  have hrecs : applyRecs start {} (recLoop (closedFuel (gnoTail gs.closed) + (n + 1))
+      (Dec.open (gchainFiles 0 (gnoTail gs.closed) ++ [f]))).1 =
+        specCalls start { metadata := md } (.snap ⟨0, 0, none⟩ :: (hs ++ hu')) := by
+    rw [hchain]
+    simp only
+    rw [hrec, applyRecs_append, applyRecs_gchainRecords]
+    have hflat : ((gnoTail gs.closed).map (·.1)).flatten = gs.closed.flatten := by
+      simp [gnoTail, List.map_map, Function.comp_def]
+    rw [hflat]
+    have hcr1 : ∀ ra, applyRecs start ra (crcRec gs.crc0 :: gRecords gs.crc0 (gs.cur ++ p)) = applyItems start ra (gs.cur ++ p) := by
+      intro ra
+      simp only [applyRecs, applyRec_crc start ra (crcRec gs.crc0) rfl]
+      exact applyRecs_gRecords start _ _ ra
+    have hall : gs.all = gs.closed.flatten ++ gs.cur := by simp [GGhost.all, List.flatten_append]
+    have hsem' := hsem
+    rw [hall, applyItems_append] at hsem'
+    have hsa := specCalls_append start (.snap ⟨0, 0, none⟩ :: hs) hu' { metadata := md }
+    rw [show (Call.snap ⟨0, 0, none⟩ :: (hs ++ hu')) = (Call.snap ⟨0, 0, none⟩ :: hs) ++ hu' by rfl, hsa, ← hsem']
+    cases applyItems start {} gs.closed.flatten with
+    | error e => rfl
+    | ok ra' =>
+      simp only
+      rw [hcr1 ra', applyItems_append]
+      cases applyItems start ra' gs.cur with
+      | error e => rfl
+      | ok ra2 => simp only; rw [hpitems]; exact applyItems_callsItems start hu' ra2 hfu'
+  have hR0 : placeCalls start.1 ({ metadata := md } : RA).ents (.snap ⟨0, 0, none⟩ :: (hs ++ hu')) = some R := hR
+  have heval := specCalls_eval start (.snap ⟨0, 0, none⟩ :: (hs ++ hu')) { metadata := md } R hR0
+  have hsn : snapsOf (.snap ⟨0, 0, none⟩ :: (hs ++ hu')) = savedSnaps (hs ++ hu') := rfl
+  have hrs : refStateFrom ({ metadata := md } : RA).state (.snap ⟨0, 0, none⟩ :: (hs ++ hu')) = refState (hs ++ hu') := rfl
+  rw [hsn, hrs] at heval
+  unfold Mismatch at hnm'
+  rw [if_neg hnm', ← hrecs] at heval
+  have hrl := readLoop_of_recLoop start _ _ _ _ heval
+  unfold readAll readAllFrom
+  rw [hn1, hrl]
+  have hcont : ((savedSnaps (hs ++ hu')).contains start = true) ↔ start ∈ savedSnaps (hs ++ hu') := by simp
+  have herr : ∀ x : Option RErr,
+      x = (if ((savedSnaps (hs ++ hu')).contains start || write) = true then none else some RErr.snapNotFound) →
+      x = (if start ∈ savedSnaps (hs ++ hu') ∨ write = true then none else some RErr.snapNotFound) := by
+    intro x hx
+    rw [hx]
+    by_cases hin : start ∈ savedSnaps (hs ++ hu') ∨ write = true
+    · rw [if_pos hin]
+      rcases hin with hin | hin
+      · rw [hcont.mpr hin, Bool.true_or, if_pos rfl]
+      · rw [hin, Bool.or_true, if_pos rfl]
+    · rw [if_neg hin]
+      have : ¬ (((savedSnaps (hs ++ hu')).contains start || write) = true) := by
+        intro hh
+        simp only [Bool.or_eq_true] at hh
+        rcases hh with hh | hh
+        · exact hin (Or.inl (hcont.mp hh))
+        · exact hin (Or.inr hh)
+      rw [if_neg this]
+  rcases hfin with h | ⟨hw, h⟩
+  · have h' : (recLoop (closedFuel (gnoTail gs.closed) + (n + 1)) (Dec.open (gchainFiles 0 (gnoTail gs.closed) ++ [f]))).2.1 = .decEof := by
+      rw [hchain]; exact h
+    rw [h']
+    refine ⟨rfl, rfl, rfl, herr _ ?_, hRpre, hRex⟩
+    simp only [readAllFin, Bool.false_or]
+  · have h' : (recLoop (closedFuel (gnoTail gs.closed) + (n + 1)) (Dec.open (gchainFiles 0 (gnoTail gs.closed) ++ [f]))).2.1 = .decErr .ueof := by
+      rw [hchain]; exact h
+    subst hw
+    rw [h']
+    refine ⟨rfl, rfl, rfl, herr _ ?_, hRpre, hRex⟩
+    simp only [readAllFin, Bool.false_or, Bool.not_false, Bool.true_and, decide_true, if_true, Bool.or_false]
+
 theorem crash_readAll_prefix_partial (segSize : Nat) (md : Option Bytes) (hmd : (md.getD []).length < 2 ^ 55)
     (hs hu : List Call) (hfit : ∀ c ∈ hs ++ hu, c.Fits) (hok : SaveOk (hs ++ hu))
     (hnocut : noCut (syncedWriter segSize md hs) hu = true) (f : Bytes)
@@ -147,70 +247,14 @@ theorem crash_readAll_prefix_partial (segSize : Nat) (md : Option Bytes) (hmd : 
   obtain ⟨n, hn1, hn2⟩ := hfuel
   obtain ⟨p, rest, hU, hrec, hfin, _⟩ := torn_tail_gfile_partial gs.crc0 gs.crc0 hc0 (Or.inr rfl) gs.cur (callsItems hu) hSok hUok f
     hcr' hnc' hsize' (n + 1) hn2
-  have hchain := recLoop_closed_then f (gnoTail gs.closed) hclosedok n
-  have hcc : gchainCrc 0 (gnoTail gs.closed) = gs.crc0 := rfl
-  rw [hcc] at hchain
-  -- the surviving items are the items of a history cut short at a record boundary
-  obtain ⟨hu', hpre, hpitems⟩ := callsItems_prefix hu p rest hU
-  have hfu' := fits_prefix hu hu' hpre hfu
-  have hok' : SaveOk (hs ++ hu') := histOk_append_prefix hs [] hu hu' hpre hok
-  have hnm' := mismatch_prefix start hs hu hu' hpre hnm
-  obtain ⟨R, hR, hRpre, hRex⟩ := placeCalls_refLog start.1 (hs ++ hu') hok'
-  refine ⟨hu', hpre, hok', hnm', R, hR, ?_⟩
-  -- the dispatch over the records read
-  have hrecs : applyRecs start {} (recLoop (closedFuel (gnoTail gs.closed) + (n + 1))
-      (Dec.open (gchainFiles 0 (gnoTail gs.closed) ++ [f]))).1 =
-        specCalls start { metadata := md } (.snap ⟨0, 0, none⟩ :: (hs ++ hu')) := by
-    rw [hchain]
-    simp only
-    rw [hrec, applyRecs_append, applyRecs_gchainRecords]
-    have hflat : ((gnoTail gs.closed).map (·.1)).flatten = gs.closed.flatten := by
-      simp [gnoTail, List.map_map, Function.comp_def]
-    rw [hflat]
-    have hcr1 : ∀ ra, applyRecs start ra (crcRec gs.crc0 :: gRecords gs.crc0 (gs.cur ++ p)) = applyItems start ra (gs.cur ++ p) := by
-      intro ra
-      simp only [applyRecs, applyRec_crc start ra (crcRec gs.crc0) rfl]
-      exact applyRecs_gRecords start _ _ ra
-    have hall : gs.all = gs.closed.flatten ++ gs.cur := by simp [GGhost.all, List.flatten_append]
-    have hsem' := hsem
-    rw [hall, applyItems_append] at hsem'
-    have hsa := specCalls_append start (.snap ⟨0, 0, none⟩ :: hs) hu' { metadata := md }
-    rw [show (Call.snap ⟨0, 0, none⟩ :: (hs ++ hu')) = (Call.snap ⟨0, 0, none⟩ :: hs) ++ hu' by rfl, hsa, ← hsem']
-    cases applyItems start {} gs.closed.flatten with
-    | error e => rfl
-    | ok ra' =>
-      simp only
-      rw [hcr1 ra', applyItems_append]
-      cases applyItems start ra' gs.cur with
-      | error e => rfl
-      | ok ra2 => simp only; rw [hpitems]; exact applyItems_callsItems start hu' ra2 hfu'
-  have hR0 : placeCalls start.1 ({ metadata := md } : RA).ents (.snap ⟨0, 0, none⟩ :: (hs ++ hu')) = some R := hR
-  have heval := specCalls_eval start (.snap ⟨0, 0, none⟩ :: (hs ++ hu')) { metadata := md } R hR0
-  have hsn : snapsOf (.snap ⟨0, 0, none⟩ :: (hs ++ hu')) = savedSnaps (hs ++ hu') := rfl
-  have hrs : refStateFrom ({ metadata := md } : RA).state (.snap ⟨0, 0, none⟩ :: (hs ++ hu')) = refState (hs ++ hu') := rfl
-  rw [hsn, hrs] at heval
-  unfold Mismatch at hnm'
-  rw [if_neg hnm', ← hrecs] at heval
-  have hrl := readLoop_of_recLoop start _ _ _ _ heval
-  unfold readAll readAllFrom
-  rw [hfilesEq, hn1, hrl]
-  have hfin' : (recLoop (closedFuel (gnoTail gs.closed) + (n + 1)) (Dec.open (gchainFiles 0 (gnoTail gs.closed) ++ [f]))).2.1 = .decEof ∨
-      (recLoop (closedFuel (gnoTail gs.closed) + (n + 1)) (Dec.open (gchainFiles 0 (gnoTail gs.closed) ++ [f]))).2.1 = .decErr .ueof := by
-    rw [hchain]; exact hfin
-  have hcont : ((savedSnaps (hs ++ hu')).contains start = true) ↔ start ∈ savedSnaps (hs ++ hu') := by simp
-  rcases hfin' with h | h
-  · rw [h]
-    refine ⟨rfl, rfl, rfl, ?_, hRpre, hRex⟩
-    simp only [readAllFin, Bool.false_or, Bool.or_false]
-    by_cases hin : start ∈ savedSnaps (hs ++ hu')
-    · rw [if_pos hin, if_pos (hcont.mpr hin)]
-    · rw [if_neg hin, if_neg (fun h => hin (hcont.mp h))]
-  · rw [h]
-    refine ⟨rfl, rfl, rfl, ?_, hRpre, hRex⟩
-    simp only [readAllFin, Bool.false_or, Bool.not_false, Bool.true_and, decide_true, if_true]
-    by_cases hin : start ∈ savedSnaps (hs ++ hu')
-    · rw [if_pos hin, if_pos (hcont.mpr hin)]
-    · rw [if_neg hin, if_neg (fun h => hin (hcont.mp h))]
+  obtain ⟨hu', q1, q2, q3, R, q4, q5, q6, q7, q8, q9, q10⟩ := crash_finish start md hs hu hfu hok hnm gs hsem hclosedok f n false hn1
+    p rest hU hrec (by rcases hfin with h | h; exact Or.inl h; exact Or.inr ⟨rfl, h⟩)
+  rw [hfilesEq]
+  refine ⟨hu', q1, q2, q3, R, q4, q5, q6, q7, ?_, q9, q10⟩
+  rw [q8]
+  by_cases hin : start ∈ savedSnaps (hs ++ hu')
+  · rw [if_pos (Or.inl hin), if_pos hin]
+  · rw [if_neg (by simp [hin]), if_neg hin]
 
 /-! ### non-vacuity: a concrete crash that loses the unsynced entry -/
 
